@@ -754,20 +754,20 @@ def correspond(ctx):
     inputs = []
     for c in corpus_inputs():
         inputs.append(("corpus", c))
-    n_valid = ctx.n(170, 1500)
+    n_valid = ctx.n(300, 2400)
     for _ in range(n_valid):
         inputs.append(("valid", gen_valid(rng)))
-    for _ in range(ctx.n(30, 250)):
+    for _ in range(ctx.n(50, 400)):
         inputs.append(("late-start", gen_valid(rng, late=True)))
-    for _ in range(ctx.n(40, 300)):
+    for _ in range(ctx.n(60, 500)):
         inputs.append(("leak-family", leak_family(rng)))
-    for _ in range(ctx.n(30, 250)):
+    for _ in range(ctx.n(50, 400)):
         inputs.append(("constants", gen_consts(rng)))
-    for _ in range(ctx.n(50, 400)):
+    for _ in range(ctx.n(80, 600)):
         inputs.append(("near-tolerance", gen_neartol(rng)))
-    for _ in range(ctx.n(50, 400)):
+    for _ in range(ctx.n(80, 600)):
         inputs.append(("malformed", gen_malformed(rng)))
-    for _ in range(ctx.n(25, 200)):
+    for _ in range(ctx.n(40, 300)):
         inputs.append(("cubic", gen_valid(rng, kind="cubic")))
     if ctx.thorough:
         inputs += exhaustive_small()
@@ -781,7 +781,7 @@ def correspond(ctx):
             filecases.append((idx, bool(idx % 2)))
     models, fres = run_models(ctx.tier, cases, filecases)
 
-    n_solver = ctx.n(10, 60)
+    n_solver = ctx.n(16, 100)
     impls = {}
     saw_v0 = 0
     for idx, ((kind, inp), mod) in enumerate(zip(step_cases, models)):
@@ -819,7 +819,7 @@ def correspond(ctx):
         use_solver = in_property_domain(inp) and n_solver > 0 and kind in ("valid", "leak-family", "corpus")
         if use_solver:
             n_solver -= 1
-        light = kind not in ("corpus",) and idx % 3 != 0       # the heavier re-runs on every third case
+        light = kind not in ("corpus",) and idx % 2 != 0       # the heavier re-runs on every second case
         for f in oracle_case(inp, impl, proc, mats, solver=use_solver,
                              files=(kind != "near-tolerance" and not light), states=not light):
             corr.oracle_fail(f["input"], f["observed"], f["expected"], f["what"])
